@@ -21,11 +21,11 @@ Proof.
   lia.
 Qed.
 
-Lemma src_window_ok n k : src_win_start n k = win_start k /\ src_win_stop n k = win_stop n k.
+Lemma src_window_ok n k w : src_win_start n k w = win_start w /\ src_win_stop n k w = win_stop n w.
 Proof. split; reflexivity. Qed.
 
 Lemma src_constants_ok :
-  src_cut = cut /\ src_tol = tol /\ src_half = 2%Q /\ src_fwhm_guard = 1%Q /\
+  src_cut = cut /\ src_tol = tol /\ src_half = 2%Q /\ src_sigma_always_applied = true /\
   src_kernel_origin = 0 /\ src_data_origin = 0.
 Proof. repeat split; reflexivity. Qed.
 
@@ -35,4 +35,9 @@ Proof. reflexivity. Qed.
 Lemma src_conversions_ok f :
   fwhm2sigma f = (f / sqrt (IZR src_f2s_a * ln (IZR src_f2s_b)))%R /\
   sigma2fwhm f = (f * sqrt (IZR src_s2f_a * ln (IZR src_s2f_b)))%R.
+Proof. split; reflexivity. Qed.
+
+Lemma src_resel_ok D root wedge v :
+  src_resel2fwhm pos_recipr root D wedge v = resel2fwhm root wedge v /\
+  src_fwhm2resel pos_recipr root D wedge v = fwhm2resel D wedge v.
 Proof. split; reflexivity. Qed.
